@@ -65,7 +65,9 @@ Record config := mkConfig {
                            4 add_route('/name/{subpath:.*}') + static_view(root, use_subpath=True): the matchdict
                              holds a STRING, which ResourceTreeTraverser.__call__ splits
                            5 add_view(static_view(root, use_subpath=True), name=name), no route: traversal from the
-                             default root finds the view name and hands the remaining segments over as request.subpath *)
+                             default root finds the view name and hands the remaining segments over as request.subpath
+                           6 add_route('/name/{subpath}') + static_view(root, use_subpath=True): the default placeholder
+                             regex '[^/]+' -- one non-empty piece without '/', again a STRING split by the traverser *)
   c_name : text;
   c_pkg : bool;         (* package-relative root *)
   c_docroot : text;     (* what static_view keeps as self.docroot *)
@@ -75,7 +77,9 @@ Record config := mkConfig {
   c_encmap : list (text * text);   (* mimetypes.encodings_map.items() *)
   c_host : text;        (* request.host_url *)
   c_safe : list N;      (* webob.request.PATH_SAFE *)
-  c_reload : bool       (* reload= / pyramid.reload_assets: do not keep the filemap *)
+  c_reload : bool;      (* reload= / pyramid.reload_assets: do not keep the filemap *)
+  c_vroot : option text (* HTTP_X_VHM_ROOT as the front-end proxy sets it (WSGI str), deployment-level; only the traversal
+                           mounting reads it *)
 }.
 
 Record request := mkReq {
@@ -183,8 +187,19 @@ Definition route_match_ph (prefix p : text) : option text :=
 (* name + '/' and the leading '/' added by _compile_route *)
 Definition route_prefix (c : config) : text :=
   match c_mount c with
-  | 0 | 4 => [slash] ++ c_name c ++ [slash]
+  | 0 | 4 | 6 => [slash] ++ c_name c ++ [slash]
   | _ => [slash]
+  end.
+
+(* a '{subpath}' placeholder with the default regex '[^/]+' (greedy, so the anchor kind is irrelevant): one non-empty
+   piece without '/' *)
+Definition segment_capture (rest : text) : option text :=
+  match rest with [] => None | _ => if memN slash rest then None else Some rest end.
+
+Definition route_match_seg (prefix p : text) : option text :=
+  match strip_prefix prefix p with
+  | None => None
+  | Some rest => segment_capture rest
   end.
 
 (* ResourceTreeTraverser.__call__, route matched, matchdict['subpath'] is a str (a '{subpath}' placeholder, not the
@@ -204,6 +219,17 @@ Definition traverser_tuple (s : text) : sum resp (list text) :=
    normalised segment is the view name ('@@' selector stripped), the others are request.subpath *)
 Definition traversal_view_name (seg : text) : text :=
   if text_eqb (firstn 2 seg) traverser_view_selector then skipn 2 seg else seg.
+
+(* ... `if VH_ROOT_KEY in environ: vroot_tuple = split_path_info(decode_path_info(environ[VH_ROOT_KEY]))`, then
+   vpath_tuple = vroot_tuple + split_path_info(path): the request path is normalised on its own *)
+Definition vroot_tuple (c : config) : sum resp (list text) :=
+  match c_vroot c with
+  | None => Datatypes.inr []
+  | Some v => match decode v with
+              | None => Datatypes.inl (RExc 2)              (* a plain UnicodeDecodeError *)
+              | Some u => Datatypes.inr (split_path_info_f u)
+              end
+  end.
 
 (* ------------------------------------------------------------ request.path_url *)
 Definition path_url (c : config) (pi : text) : option text :=
@@ -401,11 +427,29 @@ Definition run_request (c : config) (fs : fsys) (fm : filemap) (rq : request) : 
       | None => ret (RExc 1, fm)                              (* RoutesMapper / traverser: URLDecodeError *)
       | Some p0 =>
           let p := match p0 with [] => [slash] | _ => p0 end in
-          match split_path_info_f p with
-          | [] => ret (R404 0, fm)                            (* view name '': no such view *)
-          | seg :: rest =>
-              if text_eqb (traversal_view_name seg) (c_name c) then serve c rq pi fs fm rest
-              else ret (R404 0, fm)
+          match vroot_tuple c with
+          | Datatypes.inl r => ret (r, fm)
+          | Datatypes.inr vt =>
+              match vt ++ split_path_info_f p with
+              | [] => ret (R404 0, fm)                        (* view name '': no such view *)
+              | seg :: rest =>
+                  if text_eqb (traversal_view_name seg) (c_name c) then serve c rq pi fs fm rest
+                  else ret (R404 0, fm)
+              end
+          end
+      end
+  | 6 =>
+      match decode pi with
+      | None => ret (RExc 1, fm)
+      | Some p0 =>
+          let p := match p0 with [] => [slash] | _ => p0 end in
+          match route_match_seg (route_prefix c) p with
+          | None => ret (R404 0, fm)
+          | Some rest =>
+              match traverser_tuple rest with
+              | Datatypes.inl r => ret (r, fm)
+              | Datatypes.inr t => serve c rq pi fs fm t
+              end
           end
       end
   | _ => serve c rq pi fs fm (r_subpath rq)
@@ -424,7 +468,7 @@ Definition run_model (c : config) (fs : fsys) (rqs : list request) : list (resp 
 (* several view instances in one process, requests interleaved.  static_view.__init__ does
    `self.filemap = {}`: the filemap is per-instance state (regenerated fact; were it shared,
    every instance would read and write slot 0) *)
-Definition dflt_cfg : config := mkConfig 3 [] false [] [] [] [] [] [] [] false.
+Definition dflt_cfg : config := mkConfig 3 [] false [] [] [] [] [] [] [] false None.
 
 Fixpoint set_nth {A} (n : nat) (x : A) (l : list A) : list A :=
   match n, l with
@@ -459,7 +503,7 @@ Definition seg_ok (s : text) : bool := normal_segb s && negb (memN 0 s).
 
 Definition spec_prefix (c : config) : text :=
   match c_mount c with
-  | 0 | 4 => [slash] ++ c_name c ++ [slash]
+  | 0 | 4 | 6 => [slash] ++ c_name c ++ [slash]
   | 1 => [slash]
   | _ => []
   end.
@@ -509,12 +553,34 @@ Definition spec_segments (c : config) (rq : request) : option (option (list text
       match decode (unquote (r_raw rq)) with
       | None => None
       | Some p0 =>
-          match split_path_info p0 with
-          | [] => Some None
-          | seg :: segs =>
-              if text_eqb (spec_view_name seg) (c_name c)
-              then (if forallb seg_ok segs then Some (Some segs) else Some None)
-              else Some None
+          match (match c_vroot c with None => Some [] | Some v => decode v end) with
+          | None => None                                   (* undecodable virtual root: a Unicode decode error *)
+          | Some v =>
+              (* the virtual root the proxy announces is a prefix of every path; '..' of the request cannot eat it *)
+              match split_path_info v ++ split_path_info p0 with
+              | [] => Some None
+              | seg :: segs =>
+                  if text_eqb (spec_view_name seg) (c_name c)
+                  then (if forallb seg_ok segs then Some (Some segs) else Some None)
+                  else Some None
+              end
+          end
+      end
+  | 6 =>
+      (* a route whose pattern is '/name/{subpath}': its URLs are '/name/' + one non-empty piece without '/' *)
+      match decode (unquote (r_raw rq)) with
+      | None => None
+      | Some p0 =>
+          let p := match p0 with [] => [slash] | _ => p0 end in
+          match strip_prefix (spec_prefix c) p with
+          | None => Some None
+          | Some rest =>
+              match rest with
+              | [] => Some None
+              | _ => if memN slash rest then Some None
+                     else let segs := split_path_info rest in
+                          if forallb seg_ok segs then Some (Some segs) else Some None
+              end
           end
       end
   | _ => Some (if forallb seg_ok (r_subpath rq) then Some (r_subpath rq) else None)
@@ -615,19 +681,120 @@ Definition beneath (root : list text) (p : text) : bool :=
 
 Definition contained (c : config) (l : logt) : bool := forallb (fun e => beneath (spec_root c) (snd e)) l.
 
+(* ------------------------------------------------------------ configuration time: which directory is the root *)
+(* What the application writes (root_dir= / path=, package_name=), the package of the module that creates the view
+   (caller_package(); for add_static_view: the Configurator's package) and pkg_resources' package directories are
+   the inputs; static_view.__init__ (through asset.resolve_asset_spec), Configurator._make_spec and StaticURLInfo.add
+   turn them into self.package_name / self.docroot. *)
+Definition colon : N := 58.
+
+Fixpoint split_once (ch : N) (s : text) : option (text * text) :=
+  match s with
+  | [] => None
+  | x :: r => if x =? ch then Some ([], r)
+              else match split_once ch r with Some (a, b) => Some (x :: a, b) | None => None end
+  end.
+
+(* asset.resolve_asset_spec(spec, pname) *)
+Definition resolve_asset_spec (spec : text) (pname : option text) : option text * text :=
+  if startswith [slash] spec then (None, spec)                 (* os.path.isabs *)
+  else match split_once colon spec with
+       | Some (p, f) => (Some p, f)                            (* spec.split(':', 1) *)
+       | None => (pname, spec)
+       end.
+
+(* Configurator._make_spec(path): absolute file name or 'package:filename' *)
+Definition make_spec (path cfg_pkg : text) : text :=
+  match resolve_asset_spec path (Some cfg_pkg) with
+  | (None, f) => f
+  | (Some p, f) => p ++ [colon] ++ f
+  end.
+
+(* StaticURLInfo.add: the separator is appended unless the spec ends with it or with ':' *)
+Definition static_add_spec (spec : text) : text :=
+  if ends_with slash spec || ends_with colon spec then spec else spec ++ [slash].
+
+(* static_view.__init__: (self.package_name, self.docroot) *)
+Definition init_root (root_dir : text) (pname_kw : option text) (caller : text) : option text * text :=
+  resolve_asset_spec root_dir (Some (match pname_kw with None => caller | Some p => p end)).
+
+Record setup := mkSetup {
+  s_root : text;                  (* root_dir= of static_view / path= of add_static_view, as written *)
+  s_pname : option text;          (* package_name= of static_view *)
+  s_caller : text;                (* __name__ of the package whose module creates the view (of the Configurator's package) *)
+  s_mods : list (text * text);    (* package name -> its directory (pkg_resources module_path) *)
+  s_base : config                 (* everything else; its c_pkg / c_docroot / c_modpath are overwritten *)
+}.
+
+Fixpoint mod_lookup (mods : list (text * text)) (p : text) : text :=
+  match mods with
+  | [] => []
+  | (k, v) :: r => if text_eqb p k then v else mod_lookup r p
+  end.
+
+(* "pyramid.config": the package of the module (config/views.py) that instantiates the view for add_static_view *)
+Definition pyramid_config_pkg : text := [112; 121; 114; 97; 109; 105; 100; 46; 99; 111; 110; 102; 105; 103].
+
+Definition view_root (s : setup) : option text * text :=
+  match c_mount (s_base s) with
+  | 0 => init_root (static_add_spec (make_spec (s_root s) (s_caller s))) None pyramid_config_pkg
+  | _ => init_root (s_root s) (s_pname s) (s_caller s)
+  end.
+
+Definition with_root (c : config) (pkg : bool) (docroot modpath : text) : config :=
+  mkConfig (c_mount c) (c_name c) pkg docroot modpath (c_index c) (c_encs c) (c_encmap c) (c_host c) (c_safe c)
+           (c_reload c) (c_vroot c).
+
+(* the view instance as the code builds it; `if self.package_name:` is truthiness *)
+Definition configure (s : setup) : config :=
+  match view_root s with
+  | (Some (x :: p), docroot) => with_root (s_base s) true docroot (mod_lookup (s_mods s) (x :: p))
+  | (_, docroot) => with_root (s_base s) false docroot []
+  end.
+
+(* declaratively, by the form of what was written: an absolute path is the root; 'pkg:dir' is dir inside the
+   directory of pkg; anything else is relative to the directory of package_name= or, without it, of the package that
+   creates the view *)
+Definition eff_pname (s : setup) : text :=
+  match c_mount (s_base s) with
+  | 0 => s_caller s
+  | _ => match s_pname s with Some p => p | None => s_caller s end
+  end.
+
+(* None: the root is the absolute path written; Some (package, dir): dir inside the directory of that package *)
+Definition designated_parts (s : setup) : option (text * text) :=
+  if startswith [slash] (s_root s) then None
+  else match split_once colon (s_root s) with
+       | Some (p, d) => Some (p, d)
+       | None => Some (eff_pname s, s_root s)
+       end.
+
+Definition designated_dir (s : setup) : text :=
+  match designated_parts s with
+  | None => s_root s
+  | Some (p, d) => mod_lookup (s_mods s) p ++ [slash] ++ d
+  end.
+
+(* the configuration the SPECIFICATION is evaluated with: the root is the designated directory *)
+Definition spec_config (s : setup) : config := with_root (s_base s) false (designated_dir s) [].
+
 (* ------------------------------------------------------------ wire glue *)
 Definition get_pair (v : val) : option (text * text) :=
   match v with VL [VT a; VT b] => Some (a, b) | _ => None end.
 
-Definition get_config (v : val) : option config :=
+Definition get_opt_text (v : val) : option (option text) :=
+  match v with VL [] => Some None | VL [VT t] => Some (Some t) | _ => None end.
+
+Definition get_setup (v : val) : option setup :=
   match v with
-  | VL [m; name; pkg; docroot; modpath; index; encs; encmap; host; safe; reload] =>
-      olet m := get_N m in olet name := get_text name in olet pkg := get_bool pkg in
-      olet docroot := get_text docroot in olet modpath := get_text modpath in
+  | VL [m; name; root; pname; caller; mods; index; encs; encmap; host; safe; reload; vroot] =>
+      olet m := get_N m in olet name := get_text name in olet root := get_text root in
+      olet pname := get_opt_text pname in olet caller := get_text caller in
+      olet mods := get_list_of get_pair mods in
       olet index := get_text index in olet encs := get_texts encs in
       olet encmap := get_list_of get_pair encmap in olet host := get_text host in
-      olet safe := get_text safe in olet reload := get_bool reload in
-      Some (mkConfig m name pkg docroot modpath index encs encmap host safe reload)
+      olet safe := get_text safe in olet reload := get_bool reload in olet vroot := get_opt_text vroot in
+      Some (mkSetup root pname caller mods (mkConfig m name false [] [] index encs encmap host safe reload vroot))
   | _ => None
   end.
 
@@ -694,12 +861,14 @@ Definition run_C16 (v : val) : val :=
     match v with
     | VL [VI 1%Z; VT prefix; VI n] => Some (utf8_sweep prefix (Z.to_nat n))
     | VL [cs; r; f] =>
-        olet cs := get_list_of get_config cs in olet rqs := get_list_of get_request r in
+        olet ss := get_list_of get_setup cs in olet rqs := get_list_of get_request r in
         olet fs := get_list_of get_entry f in
+        let cs := map configure ss in                 (* the instances as the code builds them *)
+        let scs := map spec_config ss in              (* the specification: root = the designated directory *)
         let outs := run_multi_model cs fs rqs in
         let one (x : (nat * request) * (resp * logt)) :=
           let '((i, rq), (res, log)) := x in
-          let c := nth i cs dflt_cfg in
+          let c := nth i scs dflt_cfg in
           let sp := spec_response c rq fs in
           VL [put_resp res; put_log log; put_spec sp; vbool (conforms res sp); vbool (contained c log)] in
         Some (VL [VL (map one (combine rqs outs));
